@@ -187,3 +187,117 @@ def ref_read(a):
         "amps": amps,
         "cartesian": cartesian,
     }
+
+
+# ---------------------------------------------------------------------------------------------
+# four-body amplitudes over the supported spin structures (C18, C19, C20)
+# ---------------------------------------------------------------------------------------------
+
+BY_CLASS = {}
+for _n, _c in SPINCLASS.items():
+    BY_CLASS.setdefault(_c, []).append(_n)
+JCLASS = {"V": 1, "A": 1, "T": 2, "s": 0, "S": 0}
+
+#: spin structure key -> spin-factor enum names, transcribed from the header of upstream's pinned
+#: reference output tests/output/DtoKpipipi_v2.cu (cross-checked against that file at run time)
+SPINFACTOR_TABLE = {
+    "DtoV1V2_V1toP1P2_V2toP3P4": ["DtoV1V2_V1toP1P2_V2toP3P4_S"],
+    "DtoV1V2_V1toP1P2_V2toP3P4_P": ["DtoV1V2_V1toP1P2_V2toP3P4_P", "FF_12_34_L1"],
+    "DtoV1V2_V1toP1P2_V2toP3P4_D": ["DtoV1V2_V1toP1P2_V2toP3P4_D", "FF_12_34_L2"],
+    "DtoV1S2_V1toP1P2_S2toP3P4": ["DtoVS_VtoP1P2_StoP3P4", "FF_12_34_L1"],
+    "DtoS1S2_S1toP1P2_S2toP3P4": ["ONE"],
+    "DtoA1P1_A1toV2P2_V2toP3P4": ["DtoAP1_AtoVP2Dwave_VtoP3P4", "FF_123_4_L1"],
+    "DtoA1P1_A1toV2P2Dwave_V2toP3P4": ["DtoAP1_AtoVP2Dwave_VtoP3P4", "FF_123_4_L1"],
+    "DtoA1P1_A1toS2P2_S2toP3P4": ["DtoAP1_AtoSP2_StoP3P4", "FF_123_4_L1"],
+    "DtoT1P1_T1toV2P2_V2toP3P4": ["DtoTP1_TtoVP2_VtoP3P4", "FF_123_4_L2"],
+    "Dtos1P1_s1toS2P2_S2toP3P4": ["DtoPP1_PtoSP2_StoP3P4"],
+    "Dtos1P1_s1toV2P2_V2toP3P4": ["DtoPP1_PtoVP2_VtoP3P4"],
+}
+STRUCTURES = (  # (key, topology, classes, top tag, resonance-3 tag)
+    ("DtoV1V2_V1toP1P2_V2toP3P4", "12_34", ("V", "V"), None, None),
+    ("DtoV1V2_V1toP1P2_V2toP3P4", "12_34", ("V", "V"), "S", None),
+    ("DtoV1V2_V1toP1P2_V2toP3P4_P", "12_34", ("V", "V"), "P", None),
+    ("DtoV1V2_V1toP1P2_V2toP3P4_D", "12_34", ("V", "V"), "D", None),
+    ("DtoV1S2_V1toP1P2_S2toP3P4", "12_34", ("V", "S"), None, None),
+    ("DtoS1S2_S1toP1P2_S2toP3P4", "12_34", ("S", "S"), None, None),
+    ("DtoA1P1_A1toV2P2_V2toP3P4", "1_2_34", ("A", "V"), None, None),
+    ("DtoA1P1_A1toV2P2Dwave_V2toP3P4", "1_2_34", ("A", "V"), None, "D"),
+    ("DtoA1P1_A1toS2P2_S2toP3P4", "1_2_34", ("A", "S"), None, None),
+    ("DtoT1P1_T1toV2P2_V2toP3P4", "1_2_34", ("T", "V"), None, None),
+    ("Dtos1P1_s1toS2P2_S2toP3P4", "1_2_34", ("s", "S"), None, None),
+    ("Dtos1P1_s1toV2P2_V2toP3P4", "1_2_34", ("s", "V"), None, None),
+)
+EVENT_TYPES = (("K-", "pi+", "pi+", "pi-"), ("pi+", "pi-", "pi+", "pi-"), ("K+", "K-", "pi+", "pi-"), ("pi+", "K-", "pi-", "pi+"),
+               ("pi+", "pi+", "pi-", "pi-"), ("K-", "K+", "K-", "K+"), ("pi0", "pi+", "pi0", "pi-"))
+LS_KINDS = (None, None, "GSpline.EFF", "kMatrix.pole.1", "kMatrix.prod.0", "kMatrix.pole.0", "FOCUS.Kpi", "FOCUS.I32", "FOCUS.KEta")
+
+
+def min_L(J, j1, j2):
+    return min(abs(J - j1 - j2), abs(J + j1 - j2), abs(J - j1 + j2))
+
+
+@st.composite
+def amplitude4(draw, event, structure=None):
+    """One complete four-body amplitude: AST tree + the independent description of what it is."""
+    key, topo, classes, toptag, r3tag = structure if structure is not None else draw(st.sampled_from(STRUCTURES))
+    leaves = list(draw(st.permutations(list(event))))
+    r_a = draw(st.sampled_from(sorted(BY_CLASS[classes[0]])))
+    r_b = draw(st.sampled_from(sorted(BY_CLASS[classes[1]])))
+    ls_a, ls_b = draw(st.sampled_from(LS_KINDS)), draw(st.sampled_from(LS_KINDS))
+    sub_tag_b = draw(st.sampled_from((None, None, None, "S", "P", "D")))  # orbital momentum tag on the 2-body resonance
+    def leaf(n):
+        return {"n": n, "d": []}
+    if topo == "12_34":
+        sub_tag_a = draw(st.sampled_from((None, None, None, "S", "P", "D")))
+        ta = {"n": r_a, "d": [leaf(leaves[0]), leaf(leaves[1])], "sf": sub_tag_a, "ls": ls_a}
+        tb = {"n": r_b, "d": [leaf(leaves[2]), leaf(leaves[3])], "sf": sub_tag_b, "ls": ls_b}
+        tree = {"n": "D0", "d": [ta, tb], "sf": toptag, "ls": None}
+        LA = "SPD".index(sub_tag_a) if sub_tag_a else min_L(JCLASS[classes[0]], 0, 0)
+        LB = "SPD".index(sub_tag_b) if sub_tag_b else min_L(JCLASS[classes[1]], 0, 0)
+        vertices = [{"name": r_a, "ls": ls_a, "L": LA, "mass": "first"}, {"name": r_b, "ls": ls_b, "L": LB, "mass": "second"}]
+    else:
+        tb = {"n": r_b, "d": [leaf(leaves[0]), leaf(leaves[1])], "sf": sub_tag_b, "ls": ls_b}
+        ta = {"n": r_a, "d": [tb, leaf(leaves[2])], "sf": r3tag, "ls": ls_a}
+        tree = {"n": "D0", "d": [ta, leaf(leaves[3])], "sf": None, "ls": None}
+        LA = "SPD".index(r3tag) if r3tag else min_L(JCLASS[classes[0]], JCLASS[classes[1]], 0)
+        LB = "SPD".index(sub_tag_b) if sub_tag_b else min_L(JCLASS[classes[1]], 0, 0)
+        vertices = [{"name": r_a, "ls": ls_a, "L": LA, "mass": "three"}, {"name": r_b, "ls": ls_b, "L": LB, "mass": "first"}]
+    return {"tree": tree, "key": key, "topo": topo, "leaves": leaves, "vertices": vertices}
+
+
+def ref_permutations(leaves, event):
+    """Brute force: all one-to-one assignments of the amplitude's leaves to positions of identical
+    particles in the event type."""
+    n = len(event)
+    out = []
+    for perm in itertools.permutations(range(n), len(leaves)):
+        if all(event[p] == leaf for p, leaf in zip(perm, leaves)):
+            out.append(tuple(perm))
+    return out
+
+
+def mass_symbol(kind, s):
+    if kind == "first":
+        return f"M_{s[0]+1}{s[1]+1}"
+    if kind == "second":
+        return f"M_{s[2]+1}{s[3]+1}"
+    return f"M_{s[0]+1}{s[1]+1}_{s[2]+1}"
+
+
+def spline_items(names, draw):
+    """Constant and parameter lines a GSpline lineshape of each name needs."""
+    items = []
+    for nm in names:
+        items.append({"k": "const", "n": nm + "::Spline::Min", "v": "0.18"})
+        items.append({"k": "const", "n": nm + "::Spline::Max", "v": "1.9"})
+        items.append({"k": "const", "n": nm + "::Spline::N", "v": "4"})
+        for i in range(4):
+            items.append({"k": "var", "n": f"{nm}::Spline::Gamma::{i}", "flag": "2", "v": f"0.{i+1}5", "e": "0"})
+    return items
+
+
+KMATRIX_ITEMS = tuple(
+    [{"k": "var", "n": f"f_scatt{i}", "flag": "2", "v": f"0.{i}1", "e": "0"} for i in range(5)]
+    + [{"k": "var", "n": f"IS_p{i}_{c}", "flag": "2", "v": f"{i}.{j}", "e": "0"} for i in range(1, 3) for j, c in enumerate(("pipi", "KK", "4pi", "EtaEta", "EtapEta", "mass"))]
+    + [{"k": "var", "n": n, "flag": "2", "v": v, "e": "0"} for n, v in (("sA_0", "-0.15"), ("sA", "1"), ("s0_prod", "-1"), ("s0_scatt", "-3.92"))]
+)
